@@ -1,2 +1,220 @@
-(* placeholder until ApiProofs lands *)
-Example C09_placeholder : True. Proof. exact I. Qed.
+(* Properties_C09.v — C09: the setter / list / section API behaves as a simple typed store.
+   Only statements here; proofs are in ApiProofs.v (and HdrProofs.v for the fact that
+   cfg_init_defaults / cfg_parse_internal never touch the title or flags of their context).
+
+   MODEL  Api.opt_setn (cfg_opt_setnint/float/bool/str), addlist_internal, cfg_setlist, cfg_addlist,
+          opt_rmnsec, cfg_addtsec; Parser.setopt; Store.opt_getval / addval / free_value
+   VOCABULARY (ApiProofs.v)
+     frame o o'      name, kind, sub-options, defaults, callbacks equal; flag words equal outside
+                     RESET|MODIFIED; an absent annotation stays absent
+     trunc v         VInt z => VInt (to_sint32 z), identity otherwise   (va_arg(ap, int))
+     val_kind v      the kind a value constructor belongs to
+     scalar_kind k   k is KInt, KFloat, KBool or KStr
+     typed o         every value of o has the constructor of o_kind o
+     scalar_ok o     no LIST, no MULTI -> at most one value
+     titles o        the titles of the instances, in order
+     title_unique nc o   no two instances have titles equal under the comparison cfg_opt_gettsecidx uses,
+                         name_eqb (oflag o CFGF_NOCASE || nc); nc = the NOCASE flag of the instances
+     all_titled nc o     every value is an instance with Some title and NOCASE flag nc *)
+From Coq Require String.
+Import String.StringSyntax.
+From Coq Require Import List Arith NArith ZArith Bool.
+From Coq.Strings Require Import Byte.
+From LC Require Import Bytes Consts Conv Lexer Files Store Parser Api ApiProofs.
+Import ListNotations.
+Local Open Scope string_scope.
+Local Open Scope list_scope.
+
+(* (e) cfg_addlist_internal after RESET was cleared (what cfg_addlist does): the new elements go
+   behind the values already there — the declared defaults are kept even when RESET was set *)
+Theorem C09_addlist_appends :
+  forall (w : pw) (o : opt) (vs : list value),
+  oflag o CFGF_LIST = true -> scalar_kind (o_kind o) ->
+  Forall (fun v => val_kind v = o_kind o) vs ->
+  let o' := snd (addlist_internal w (o_clrf o CFGF_RESET) vs) in
+  o_vals o' = o_vals o ++ map trunc vs /\ frame o o' /\ o_comment o' = o_comment o /\
+  oflag o' CFGF_RESET = false.
+Proof. exact addlist_appends. Qed.
+Print Assumptions C09_addlist_appends.
+
+(* ... at the level of the tree *)
+Theorem C09_cfg_addlist_appends :
+  forall (w : pw) (c : cfg) (name : str) (r : optref) (o : opt) (vs : list value),
+  fst (cfg_getopt c name) = Some r -> get_opt c r = Some o ->
+  oflag o CFGF_LIST = true -> scalar_kind (o_kind o) ->
+  Forall (fun v => val_kind v = o_kind o) vs ->
+  exists w' o', cfg_addlist w c name vs = (w', put_opt c r o', OK) /\
+    o_vals o' = o_vals o ++ map trunc vs /\ frame o o' /\ o_comment o' = o_comment o /\
+    oflag o' CFGF_RESET = false.
+Proof. exact cfg_addlist_appends. Qed.
+Print Assumptions C09_cfg_addlist_appends.
+
+(* cfg_setlist replaces: the values are exactly the new list (the annotation is dropped unless the
+   option was pristine, as cfg_free_value does) *)
+Theorem C09_setlist_replaces :
+  forall (w : pw) (c : cfg) (name : str) (r : optref) (o : opt) (vs : list value),
+  fst (cfg_getopt c name) = Some r -> get_opt c r = Some o ->
+  oflag o CFGF_LIST = true -> scalar_kind (o_kind o) ->
+  Forall (fun v => val_kind v = o_kind o) vs ->
+  exists w' o', cfg_setlist w c name vs = (w', put_opt c r o', OK) /\
+    o_vals o' = map trunc vs /\ frame o o' /\ (o_comment o' = None \/ o_comment o' = o_comment o).
+Proof. exact cfg_setlist_replaces. Qed.
+Print Assumptions C09_setlist_replaces.
+
+(* (f) a successful cfg_opt_setn*: the whole list if RESET was set, else one slot replaced, else exactly
+   one slot appended (no gap filling); RESET clear, MODIFIED set, every other flag and field as before *)
+Theorem C09_setn_algebra :
+  forall (w : pw) (o : opt) (k : kind) (v : value) (index : N) (w' : pw) (o' : opt),
+  opt_setn w o k v index = (w', o', OK) ->
+  o_vals o' = (if oflag o CFGF_RESET then [v]
+               else if (index <? N.of_nat (length (o_vals o)))%N
+                    then upd_nth (o_vals o) (N.to_nat index) (fun _ => v)
+                    else o_vals o ++ [v]) /\
+  oflag o' CFGF_RESET = false /\ oflag o' CFGF_MODIFIED = true /\
+  o_name o' = o_name o /\ o_kind o' = o_kind o /\ o_sub o' = o_sub o /\ o_def o' = o_def o /\
+  o_cbs o' = o_cbs o /\ o_comment o' = o_comment o /\
+  (forall m, N.land m (N.lor CFGF_RESET CFGF_MODIFIED) = 0%N -> oflag o' m = oflag o m).
+Proof. exact setn_algebra. Qed.
+Print Assumptions C09_setn_algebra.
+
+(* ... and it succeeds exactly when the kind matches and the index is legal *)
+Theorem C09_setn_succeeds_iff :
+  forall (w : pw) (o : opt) (k : kind) (v : value) (index : N),
+  (exists w' o', opt_setn w o k v index = (w', o', OK)) <->
+  (o_kind o = k /\ (index = 0%N \/ oflag o CFGF_LIST = true \/ oflag o CFGF_MULTI = true)).
+Proof. exact setn_succeeds_iff. Qed.
+Print Assumptions C09_setn_succeeds_iff.
+
+(* (g) removing instance i closes the gap and keeps the order of the others *)
+Theorem C09_rmnsec_keeps_order :
+  forall (w : pw) (o : opt) (index : N) (w' : pw) (o' : opt),
+  opt_rmnsec w o index = (w', o', OK) ->
+  let i := N.to_nat index in
+  i < length (o_vals o) /\
+  o_vals o' = firstn i (o_vals o) ++ skipn (S i) (o_vals o) /\
+  length (o_vals o') = pred (length (o_vals o)) /\
+  (forall j, j < i -> nth_error (o_vals o') j = nth_error (o_vals o) j) /\
+  (forall j, i <= j -> nth_error (o_vals o') j = nth_error (o_vals o) (S j)) /\
+  o_name o' = o_name o /\ o_kind o' = o_kind o /\ o_flags o' = o_flags o /\ o_sub o' = o_sub o /\
+  o_def o' = o_def o /\ o_cbs o' = o_cbs o /\ o_comment o' = o_comment o.
+Proof. exact rmnsec_keeps_order. Qed.
+Print Assumptions C09_rmnsec_keeps_order.
+
+(* (h) cfg_addtsec on a titled multi section that is not pristine, all of whose instances carry a title
+   and the NOCASE flag nc of the calling context: when it returns a section, exactly one instance was
+   appended at the end, it carries the requested title, the earlier instances are unchanged, and
+   titles stay unique (the invariant all_titled /\ title_unique is re-established, so this iterates).
+   Full statement, no _partial. *)
+Theorem C09_addtsec_unique_titles :
+  forall (strtod_o : str -> strtod_res) (fuel : nat) (w : pw) (c : cfg) (name : str) (title : option str)
+         (r : optref) (o : opt) (nc : bool),
+  fst (cfg_getopt c name) = Some r -> get_opt c r = Some o ->
+  o_kind o = KSec -> oflag o CFGF_TITLE = true -> oflag o CFGF_MULTI = true ->
+  oflag o CFGF_RESET = false ->
+  all_titled nc o -> cflag c CFGF_NOCASE = nc ->
+  forall (w' : pw) (c' : cfg),
+  cfg_addtsec strtod_o fuel w c name title = (w', c', true) ->
+  exists o' s,
+    c' = put_opt c r o' /\
+    o_vals o' = o_vals o ++ [VSec (Some s)] /\
+    c_title s = title /\
+    frame o o' /\
+    (title <> None -> all_titled nc o') /\
+    (title_unique nc o -> title_unique nc o').
+Proof. exact addtsec_appends. Qed.
+Print Assumptions C09_addtsec_unique_titles.
+
+(* (i) values keep the constructor of the option's kind; plain options keep at most one value *)
+Theorem C09_typed :
+  (forall w o k v index, val_kind v = k -> typed o -> typed (snd (fst (opt_setn w o k v index)))) /\
+  (forall w o vs, typed o -> typed (snd (addlist_internal w o vs))) /\
+  (forall w o index, typed o -> typed (snd (fst (opt_rmnsec w o index)))) /\
+  (forall w o k v index, scalar_ok o -> scalar_ok (snd (fst (opt_setn w o k v index)))).
+Proof. exact typed_preserved. Qed.
+Print Assumptions C09_typed.
+
+(* ---------- a concrete tree ---------- *)
+Module Ex.
+Definition B := bs_of_string.
+Definition sd := ex_sd.
+Definition w0 := ex_w0.
+Definition oi := Opt (B "i") KInt 0 [VInt 7] [] defv0 None cbset0.
+(* a pristine list: two declared defaults, LIST|RESET *)
+Definition ol := Opt (B "l") KInt 66 [VInt 1; VInt 2] [] defv0 (Some (B "note")) cbset0.
+Definition os := Opt (B "s") KStr 0 [VStr (Some (B "hi"))] [] defv0 None cbset0.
+Definition sec (fl : N) (t : String.string) (a : Z) : cfg :=
+  Cfg (B "t") (Some (B t)) fl [Opt (B "a") KInt 0 [VInt a] [] defv0 None cbset0] None 0 true None.
+Definition suba := Opt (B "a") KInt 0 [] [] defv0 None cbset0.
+Definition ot := Opt (B "t") KSec 9 [VSec (Some (sec 0 "one" 5)); VSec (Some (sec 0 "two" 6)); VSec (Some (sec 0 "three" 7))]
+                     [suba] defv0 None cbset0.
+Definition c1 := Cfg (B "root") None 0 [oi; ol; os; ot] None 0 true None.
+Definition vals_of (c : cfg) (i : nat) : list value := match nth_error (c_opts c) i with Some o => o_vals o | None => [] end.
+Definition flags_of (c : cfg) (i : nat) : N := match nth_error (c_opts c) i with Some o => o_flags o | None => 0%N end.
+Definition titles_of (c : cfg) (i : nat) := match nth_error (c_opts c) i with Some o => titles o | None => [] end.
+
+Example C09_ex_hyps :
+  fst (cfg_getopt c1 (B "l")) = Some ([], 1) /\ get_opt c1 ([], 1) = Some ol /\ oflag ol CFGF_LIST = true /\
+  oflag ol CFGF_RESET = true /\
+  fst (cfg_getopt c1 (B "t")) = Some ([], 3) /\ get_opt c1 ([], 3) = Some ot /\
+  oflag ot CFGF_TITLE = true /\ oflag ot CFGF_MULTI = true /\ oflag ot CFGF_RESET = false /\ cflag c1 CFGF_NOCASE = false.
+Proof. vm_compute. repeat split; reflexivity. Qed.
+
+(* (e) the defaults 1, 2 are kept although RESET was set; the int is cut to 32 bits *)
+Example C09_ex_addlist :
+  let r := cfg_addlist w0 c1 (B "l") [VInt 3; VInt 4294967301] in
+  snd r = OK /\ vals_of (snd (fst r)) 1 = [VInt 1; VInt 2; VInt 3; VInt 5].
+Proof. vm_compute. split; reflexivity. Qed.
+
+Example C09_ex_setlist :
+  let r := cfg_setlist w0 c1 (B "l") [VInt 3; VInt 4] in
+  snd r = OK /\ vals_of (snd (fst r)) 1 = [VInt 3; VInt 4].
+Proof. vm_compute. split; reflexivity. Qed.
+
+(* (f) pristine: the whole list is replaced; otherwise slot replaced / exactly one slot appended *)
+Example C09_ex_setn :
+  let r1 := cfg_setnint w0 c1 (B "l") 9 1 in
+  vals_of (snd (fst r1)) 1 = [VInt 9] /\ flags_of (snd (fst r1)) 1 = 4098%N /\
+  let c2 := snd (fst (cfg_addlist w0 c1 (B "l") [VInt 3])) in
+  vals_of c2 1 = [VInt 1; VInt 2; VInt 3] /\
+  vals_of (snd (fst (cfg_setnint w0 c2 (B "l") 9 1))) 1 = [VInt 1; VInt 9; VInt 3] /\
+  vals_of (snd (fst (cfg_setnint w0 c2 (B "l") 9 7))) 1 = [VInt 1; VInt 2; VInt 3; VInt 9].
+Proof. vm_compute. repeat split; reflexivity. Qed.
+
+(* (g) *)
+Example C09_ex_rmnsec :
+  let r := cfg_rmnsec w0 c1 (B "t") 1 in
+  snd r = OK /\ titles_of (snd (fst r)) 3 = [Some (B "one"); Some (B "three")].
+Proof. vm_compute. split; reflexivity. Qed.
+
+(* (h) *)
+Example C09_ex_addtsec :
+  let r := cfg_addtsec sd 10 w0 c1 (B "t") (Some (B "four")) in
+  snd r = true /\
+  titles_of (snd (fst r)) 3 = [Some (B "one"); Some (B "two"); Some (B "three"); Some (B "four")] /\
+  firstn 3 (vals_of (snd (fst r)) 3) = o_vals ot.
+Proof. vm_compute. repeat split; reflexivity. Qed.
+
+(* the side conditions of (h) are needed.
+   RESET: on a pristine section option cfg_setopt first drops every instance *)
+Definition ot_reset := Opt (B "t") KSec 73 (o_vals ot) [suba] defv0 None cbset0.
+Definition c1_reset := Cfg (B "root") None 0 [oi; ol; os; ot_reset] None 0 true None.
+Example C09_ex_addtsec_reset_needed :
+  let r := cfg_addtsec sd 10 w0 c1_reset (B "t") (Some (B "four")) in
+  snd r = true /\ titles_of (snd (fst r)) 3 = [Some (B "four")].
+Proof. vm_compute. split; reflexivity. Qed.
+
+(* NOCASE of the context = NOCASE of the instances: cfg_gettsec compares with the instance's flag,
+   cfg_setopt with the calling context's; when they differ an existing instance is replaced in place *)
+Definition c1_nocase := Cfg (B "root") None 4 [oi; ol; os; ot] None 0 true None.
+Example C09_ex_addtsec_nocase_needed :
+  let r := cfg_addtsec sd 10 w0 c1_nocase (B "t") (Some (B "TWO")) in
+  snd r = true /\ titles_of (snd (fst r)) 3 = [Some (B "one"); Some (B "TWO"); Some (B "three")].
+Proof. vm_compute. split; reflexivity. Qed.
+
+(* (i) *)
+Example C09_ex_typed_hyp : typed ol /\ typed ot /\ scalar_ok oi.
+Proof.
+  unfold typed, scalar_ok. vm_compute.
+  repeat split; repeat constructor.
+Qed.
+End Ex.
